@@ -365,12 +365,8 @@ impl<E, Ix: IndexType> Build for List<E, Ix> {
                 };
             }
         }
-        let rank = row.len();
-        row.push(WSuc { suc: b, weight });
-        EdgeIndex {
-            from: a,
-            successor_index: rank,
-        }
+        // not found: insert like `add_edge` (which checks that `b` exists)
+        self.add_edge(a, b, weight)
     }
 }
 
